@@ -69,7 +69,7 @@ def miri_warm(pkg, bin_, log):
 
 
 def build_all(tier, log):
-    ok, msg = cargo_build(["rig_r5", "rig_r9", "rig_misc"], log)
+    ok, msg = cargo_build(["rig_r5", "rig_r9", "rig_misc", "ctor"], log)
     if not ok:
         return ok, msg
     for pkg, b in (("rig_r5", "r5"), ("rig_r9", "r9"), ("rig_misc", "r1")):
@@ -442,6 +442,131 @@ def do_replay(prop, path, log):
     return 2
 
 
+class ToolPlan:
+    """Plan for monitors that emit {violations:[{prop,sig,detail}], samples:[...], <numeric counters>}."""
+    level = "exploration"
+    assumptions = []
+
+    def __init__(self, prop, packages, what, rule, floor=1, level="exploration", exhaustive=False, assumptions=None, bins=None):
+        self.prop, self.packages, self.what, self.rule, self.floor = prop, packages, what, rule, floor
+        self.level = level
+        self.exhaustive = exhaustive
+        self.assumptions = assumptions or []
+        self.bins = bins
+
+    def build(self, ctx):
+        return cargo_build(self.packages, ctx.log, bins=self.bins)
+
+    def jobs(self, ctx):
+        raise NotImplementedError
+
+    def evaluations(self, acc):
+        return int(acc.get("cases", 0))
+
+    def distinct(self, acc):
+        return int(acc.get("distinct", 0))
+
+    def aggregate(self, ctx, results, known):
+        prop = self.prop
+        acc, viols, notes, samples, inconclusive = {}, [], [], [], []
+        replay_path = None
+        for r in results:
+            job, rep, rc = r["job"], r["report"], r["rc"]
+            if rep is None:
+                if rc == "timeout":
+                    inconclusive.append(f"{job['name']}: watchdog timeout")
+                elif isinstance(rc, int) and (rc < 0 or rc in (77, 78, 134, 139)) and job.get("death_is_violation", True):
+                    viols.append(dict(prop=prop, sig="process_died", detail=f"workload process died rc={rc}\n" + tail(r["stderr"], 25), job=job["name"]))
+                    replay_path = replay_path or save_cmd_replay(prop, job, r)
+                else:
+                    inconclusive.append(f"{job['name']}: no report, rc={rc}: {tail(r['stderr'], 6)}")
+                continue
+            for k, v in rep.items():
+                if isinstance(v, bool):
+                    continue
+                if isinstance(v, (int, float)):
+                    acc[k] = acc.get(k, 0) + v
+                elif isinstance(v, dict) and all(isinstance(x, (int, float)) for x in v.values()):
+                    d = acc.setdefault(k, {})
+                    for kk, vv in v.items():
+                        d[kk] = d.get(kk, 0) + vv
+                elif k.endswith("_set") and isinstance(v, list):
+                    acc.setdefault(k, set()).update(v)
+            samples.extend(rep.get("samples", [])[: max(0, 4 - len(samples))])
+            for v in rep.get("violations", []):
+                v = dict(v)
+                v["job"] = job["name"]
+                if v["prop"] == prop:
+                    viols.append(v)
+                    if replay_path is None:
+                        replay_path = save_violation_replay(prop, job, v, rep)
+                elif v["prop"] == "HARNESS":
+                    inconclusive.append(f"{job['name']}: {v['sig']}: {v['detail'][:200]}")
+                else:
+                    notes.append(f"{v['prop']} {v['sig']} seen in {job['name']} (decided by ./check {v['prop']}): {v['detail'][:160]}")
+            if job.get("kind") == "miri":
+                mk, line = classify_miri(r["stderr"])
+                acc.setdefault("miri", {"processes": 0, "reports": 0, "borrow_notes": 0})
+                acc["miri"]["processes"] += 1
+                if mk in ("ub", "leak", "race"):
+                    acc["miri"]["reports"] += 1
+                    viols.append(dict(prop=prop, sig=f"miri_{mk}", detail=f"Miri: {line}\n" + tail(r["stderr"], 30), job=job["name"]))
+                    replay_path = replay_path or save_cmd_replay(prop, job, r)
+                elif mk == "borrow":
+                    acc["miri"]["borrow_notes"] += 1
+                    notes.append(f"borrow-model note in {job['name']}: {line}")
+        known_hit, fresh = [], []
+        for v in viols:
+            k = match_known(known, prop, v["sig"])
+            if k:
+                if k["what"] not in known_hit:
+                    known_hit.append(k["what"])
+            else:
+                fresh.append(v)
+        coverage = dict(
+            evaluations=self.evaluations(acc),
+            distinct_nontrivial=self.distinct(acc),
+            rule=self.rule,
+            samples=samples or ["<none>"],
+            what=self.what,
+            counters=jsonable(acc),
+        )
+        if self.exhaustive:
+            coverage["exhaustive"] = True
+        verdict, reason = "held", ""
+        if fresh:
+            verdict = "violated"
+            replay_path = replay_path or save_violation_replay(prop, {"name": "note", "argv": []}, fresh[0], {})
+        elif inconclusive:
+            verdict, reason = "inconclusive", "; ".join(inconclusive[:3])
+        elif coverage["evaluations"] < self.floor or coverage["distinct_nontrivial"] < 2:
+            verdict, reason = "inconclusive", f"too little observed: evaluations={coverage['evaluations']} distinct={coverage['distinct_nontrivial']}"
+        return dict(verdict=verdict, reason=reason, violations=fresh, known=known_hit, notes=dedupe(notes), coverage=coverage, replay=replay_path)
+
+
+def save_cmd_replay(prop, job, r):
+    os.makedirs(os.path.join(ROOT, "replays"), exist_ok=True)
+    path = os.path.join(ROOT, "replays", f"{prop}-{job['name']}.json")
+    with open(path, "w") as f:
+        json.dump(dict(kind="cmd", cmd=job["argv"], env=job.get("env", {}), rc=str(r["rc"]), stderr_tail=tail(r["stderr"], 60)), f)
+    return path
+
+
+def save_violation_replay(prop, job, v, rep):
+    os.makedirs(os.path.join(ROOT, "replays"), exist_ok=True)
+    path = os.path.join(ROOT, "replays", f"{prop}-{job['name']}.json")
+    with open(path, "w") as f:
+        json.dump(dict(kind="cmd" if job.get("argv") else "note", cmd=job.get("argv", []), env=job.get("env", {}), violation=v, replay=rep.get("replay")), f)
+    return path
+
+
+class CtorPlan(ToolPlan):
+    def jobs(self, ctx):
+        out = os.path.join(ctx.scratch, "ctor.json")
+        jobs = [dict(name="ctor-all", kind="native", argv=[os.path.join(TARGET, "release", "ctor"), "all", "--out", out], out=out, timeout=600)]
+        return jobs
+
+
 ALL_RIGS = ["r5", "r9", "r1", "r0"]
 
 PLANS = {
@@ -463,6 +588,11 @@ PLANS = {
                    what="structural audit of verif_dump after every op: slots<->rows bijection, free list = inactive slots, len, unique archetype per identifier, lookup tables"),
     "C15": SeqPlan("C15", ["res"], ["r5", "r9", "r1"], quick=(5, 120, 300), thorough=(8, 1500, 400), miri_quick=2, miri_thorough=8, miri_profile="res",
                    what="get/get_mut/view_resources/query resource views vs model per resource; resources unchanged by every entity op, clone, clone_from, round trip"),
+    "C18": CtorPlan("C18", ["ctor"], floor=1000, exhaustive=True,
+                    what="every registry of length 2..9 with one pair of equal positions (120 types) x {new, with_resources, default, Deserialize from a valid empty-world input in json / tokens readable / tokens compact} must not return a World; "
+                    "the 10 duplicate-free twins (length 0..9) must return through all six; every batch of 1..4 columns with lengths in {0,1,2,3}^n (340): Batch::new panics iff ragged, equal ones extend consistently (audit)",
+                    rule="a case is one (registry type, constructor) or one (batch column-length vector); all are distinct; the space stated by the property's quantifier is enumerated completely",
+                    assumptions=["generated type family gen/gen_ctor.py covers exactly lengths 2..9 x all position pairs, as the property's quantifier states", "components are Med<k> payloads; the precondition does not depend on the component kind"]),
     "C16": SeqPlan("C16", ["eq"], ALL_RIGS, quick=(5, 120, 300), thorough=(8, 1500, 400), miri_quick=0, miri_thorough=8, miri_profile="eq",
                    what="== in both directions beside model comparison for pairs of worlds reached through different histories, clones and round trips with single-point differences"),
 }
